@@ -17,9 +17,8 @@ def cmp_pass(case, r, m):
         return "ambiguous" if band else f"outcome {r['err']} vs model {m['err']}"
     d = W.diff(r["c"], m["c"], TOL_F)
     if d:
-        if band:
-            ok, dist, _ = R.equiv_stmts(r["c"]["stmts"], m["c"]["stmts"], TOL_OP)
-            if ok: return "ambiguous"
+        ok, dist, _ = R.equiv_stmts(r["c"]["stmts"], m["c"]["stmts"], TOL_OP)
+        if ok: return "ambiguous" if band else "soft:" + d      # same operation: a threshold decided differently in float
         return d
     return None
 
@@ -31,6 +30,9 @@ def cmp_val(tol=TOL_F):
             return "ambiguous" if band else f"outcome {r['err']} vs model {m['err']}"
         d = W.diff(r["v"], m["v"], tol)
         if d and band: return "ambiguous"
+        if d and isinstance(r["v"], list) and isinstance(m["v"], list) and all(isinstance(x, dict) and x.get("k") == "gate" for x in r["v"] + m["v"]):
+            ok, dist, _ = R.equiv_stmts(r["v"], m["v"], TOL_OP)
+            if ok: return "soft:" + d
         return d
     return f
 
